@@ -222,7 +222,7 @@ func (w *World) exec(cs *clientState, idx int, op Op) *Rec {
 		}()
 		switch op.K {
 		case "create":
-			resp, err := b.Create(ctx, &proto.CreateRequest{Key: Bytes(op.Key), Value: Bytes(op.Val)})
+			resp, err := b.Create(ctx, &proto.CreateRequest{Key: Bytes(op.Key), Value: Bytes(op.Val), Lease: op.Lease})
 			if err != nil {
 				r.Err = err.Error()
 			} else {
@@ -233,7 +233,7 @@ func (w *World) exec(cs *clientState, idx int, op Op) *Rec {
 				}
 			}
 		case "update":
-			resp, err := b.Update(ctx, &proto.UpdateRequest{Kv: &proto.KeyValue{Key: Bytes(op.Key), Value: Bytes(op.Val), Revision: r.RevAbs}})
+			resp, err := b.Update(ctx, &proto.UpdateRequest{Kv: &proto.KeyValue{Key: Bytes(op.Key), Value: Bytes(op.Val), Revision: r.RevAbs}, Lease: op.Lease})
 			if err != nil {
 				r.Err = err.Error()
 			} else {
